@@ -126,6 +126,37 @@ def job_script(ctx, jr, n, W):
     H.finish_job(jr, e, res)
 
 
+# ---------------------------------------------------------------------- (b2): line numbers behind a directive that adds instructions
+def job_after_directive(ctx, jr, W):
+    """a directive line (pre-processor stubbed: it returns 0..2 arbitrary instructions, C14 decides what a real include returns) followed
+    by two arbitrary lines: every instruction of the text itself carries the number of its own line, whatever the directive added"""
+    jr.bounds = dict(text='a directive line followed by 2 lines of <= %d characters' % W, preprocessor='stub: 0, 1 or 2 added instructions with arbitrary line numbers')
+    INSTR = 'types::instruction::Instruction'; ITYPE = 'types::instruction::InstructionType'
+    for nadd in (0, 1, 2):
+        e = ctx.engine(unwind=W + 24); t0 = time.time()
+        added = V(nadd, [T([meta_new(e.fresh_int('added%d.line' % i, 1, 9)), E(ITYPE, 0, {0: []})], INSTR) for i in range(nadd)])
+        e.hooks['preprocessor::include_files_preprocessor::run'] = lambda eng, st1, a, callee, added=added: ok(added)
+        lines = [mk_str('!include_files x')] + [H.sym_str(e, 'line%d' % i, W) for i in (1, 2)]
+        text, tcons = text_of_lines(e, lines, 3); e.assume(tcons)
+        rs, rv = e.run('core', 'parser::parse_text', [text], State(True, {}))
+        if rs is None: raise Abort('parse_text never returns')
+        jr.symex_time += time.time() - t0
+        R_ok = res_ok(rv); R_iv = res_instrs(rv); checks = []
+        checks.append(('the directive, what it added and one instruction per further line', zimp(R_ok, zeq(R_iv.len, 3 + nadd))))
+        for j, idx in ((0, 0), (1, 1 + nadd), (2, 2 + nadd)):
+            if idx < len(R_iv.it):
+                ln = instr_line(R_iv.it[idx])
+                checks.append(('the instruction of text line %d carries line %d (behind %d added instructions)' % (j + 1, j + 1, nadd), zimp(R_ok, zand(zeq(ln.d, 1), zeq(ln.p[1][0], j + 1)))))
+            else: checks.append(('the instruction of text line %d exists' % (j + 1), znot(R_ok)))
+        for msg, c in checks: e.obligations.append(Obligation(rs.g, c, 'C08 directive: ' + msg, 'assert', 'oracle'))
+        def extract(m, o=None): return dict(kind='c08_directive', lines=[solve.model_str(m, l) for l in lines[1:]], expect=o.msg if o else '')
+        res = solve.discharge(e)
+        process_failed(jr, e, res, extract)
+        witness(jr, e, 'two command lines behind the directive', zand(rs.g, R_ok, lines[1].len >= 1, lines[2].len >= 1), extract)
+        H.finish_job(jr, e, res)
+        if jr.violations: break
+
+
 # ---------------------------------------------------------------------- (c2): error kind per malformed class
 NEIGHBOURS = ['', '# c', 'a b', ':l x = c "d e"']
 
@@ -214,6 +245,16 @@ def job_error_kinds(ctx, jr, B):
 # ---------------------------------------------------------------------- native replay
 def replayer(v):
     if v.get('kind') in ('c01_lemma', 'c01_struct', 'c01_arglist'): return lemma_replayer(v)
+    if v.get('kind') == 'c08_directive':
+        # natively the directive includes a real file with 0, 1 or 2 lines; the lines of the including file keep their own numbers
+        for inc in ('', 'a\n', 'a\nb\n'):
+            out = H.replay(dict(mode='parse_file', files={'main.ds': '!include_files inc.ds\n' + '\n'.join(v['lines']) + '\n', 'inc.ds': inc}, entry='main.ds')); v['native'] = out
+            if out.get('panic'): return (True, 'native panic')
+            if not out.get('ok'): continue
+            own = [i for i in out['instructions'] if (i.get('source') or '').endswith('main.ds')]
+            got = [i['line'] for i in own]
+            if got != [1, 2, 3][:len(got)] or len(got) != 3: return (True, 'instructions of the including file carry lines %r behind an included file of %d lines' % (got, inc.count('\n')))
+        return (False, 'native: the lines of the including file keep their numbers')
     out = H.replay(dict(mode='parse', text=v['text'])); v['native'] = out
     if out.get('panic'): return (True, 'native panic')
     if v['kind'] == 'c08_error':
@@ -256,6 +297,7 @@ def main(tier, seed):
     if tier == 'quick':
         chk.job(job_any_line, 'a:line<=8', L=8)
         chk.job(job_script, 'b:3x3', n=3, W=3)
+        chk.job(job_after_directive, 'b2:lines behind a directive', W=2)
         chk.job(job_error_kinds, 'c:kinds', B=2)
         chk.job(job_token_inductive, 'd:scanner error lemmas', N=24, C=12, part='C08')
         lemma_jobs(chk, 'C08', 24, 12)
@@ -265,6 +307,7 @@ def main(tier, seed):
         chk.job(job_any_line, 'a:line<=12', L=12)
         chk.job(job_script, 'b:4x3', n=4, W=3)
         chk.job(job_script, 'b:2x6', n=2, W=6)
+        chk.job(job_after_directive, 'b2:lines behind a directive', W=4)
         chk.job(job_error_kinds, 'c:kinds', B=4)
         chk.job(job_token_inductive, 'd:scanner error lemmas', N=64, C=32, part='C08')
         lemma_jobs(chk, 'C08', 64, 32)
